@@ -1569,6 +1569,17 @@ bool XSValue::getActualNumericValue(const XMLCh*  const content
     char *endptr = 0;
     errno = 0;
 
+    // strtoll/strtoull skip every isspace() character (#xB and #xC included);
+    // XML white space is #x20, #x9, #xA, #xD only
+    const char* firstPtr = nptr;
+    while (*firstPtr == ' ' || *firstPtr == '\t' || *firstPtr == '\n' || *firstPtr == '\r')
+        firstPtr++;
+    if (!(*firstPtr == '+' || *firstPtr == '-' || (*firstPtr >= '0' && *firstPtr <= '9')))
+    {
+        status = st_FOCA0002; //invalid lexcial value
+        return false;
+    }
+
     if (XSValue::numericSign[datatype])
     {
         retVal.f_long = strtoll(nptr, &endptr, (int)10);
@@ -1577,11 +1588,17 @@ bool XSValue::getActualNumericValue(const XMLCh*  const content
     {
         if (XMLString::indexOf(content, chDash) != -1)
         {
-            status = st_FOCA0002; //invalid lexcial value
-            return false;
+            // "-0" is a lexical form of zero (as for unsignedLong and nonNegativeInteger)
+            retVal.f_long = strtoll(nptr, &endptr, (int)10);
+            if (retVal.f_long != 0 || errno == ERANGE)
+            {
+                status = st_FOCA0002; //invalid lexcial value
+                return false;
+            }
+            retVal.f_ulong = 0;
         }
-
-        retVal.f_ulong = strtoull(nptr, &endptr, (int)10);
+        else
+            retVal.f_ulong = strtoull(nptr, &endptr, (int)10);
     }
 
     // need to check out-of-bounds before checking erange...
